@@ -59,6 +59,8 @@ def to_session_steps(history):
             out.append(("advance", 0.4))
         elif s == "MF":
             out.append(("peer", H.enc_frame(1, b"frag", fin=False, mask=b"abcd")))
+        elif s == "STALL":
+            out.append(("stall",))
         else:
             raise AssertionError(s)
     return out
@@ -145,6 +147,9 @@ def judge(history, r, ping=None):
             open_fragment = True
         elif s == "M" and open_fragment:
             down_at = i
+    stalled = "STALL" in history
+    if stalled:
+        want_close_payload = None if not closes else want_close_payload       # what was queued after the stall never reaches the wire: the frame clauses see only what got out
     # ---- (1) one close frame at most, nothing but control frames after it
     if len(closes) > 1:
         bad.append("(1) %d close frames were sent" % len(closes))
@@ -152,7 +157,7 @@ def judge(history, r, ping=None):
         bad.append("(1) a data frame was sent after the close frame")
     # ---- (2) the close frame's content
     if want_close_payload is None:
-        if closes and not (history and "PCbad" in history):
+        if closes and not stalled and not (history and "PCbad" in history):
             bad.append("(2) a close frame %r was sent although neither side started closing while the connection was up" % frames[closes[0]]["payload"])
     else:
         if not closes:
@@ -230,6 +235,23 @@ def u_ping(c):
     c.oblige("post/keep-alive-pings-are-sent-while-the-connection-is-up", len(pings) >= 1)
 
 
+@unit("C16", "stalled-peer", [(M, "WebSocketProtocol13.close"), (M, "WebSocketProtocol._abort")])
+def u_stalled(c):
+    """a peer that has stopped reading: our close frame cannot leave, and still the closing timeout tears the connection down and on_close fires once"""
+    from pyvc.standin import wsharness as H
+    script = c.choose("history", ["stall-close-wait", "stall-write-close-wait", "stall-close-short-wait-then-long", "stall-ping-timeout", "stall-close-then-peer-close"])
+    history = {"stall-close-wait": ["STALL", "LC1", "T6"], "stall-write-close-wait": ["STALL", "W", "LC0", "T6"], "stall-close-short-wait-then-long": ["STALL", "LC1", "T1", "T1", "T6"],
+               "stall-ping-timeout": ["STALL", "T1", "T1", "T6"], "stall-close-then-peer-close": ["STALL", "LC1", "T1", "PC1"]}[script]
+    ping = (1.0, 0.5) if script == "stall-ping-timeout" else None
+    settings = dict(websocket_ping_interval=1.0, websocket_ping_timeout=0.5) if ping else {}
+    r = H.session(to_session_steps(history), settings=settings)
+    bad = judge(history, r, ping=ping)
+    c.cover("stalled/%s" % script)
+    c.values = {"history": history, "broken": bad[:3], "events": [e for e in r["events"]][:20]}
+    c.oblige("post/the-closing-timeout-runs-from-the-moment-we-close-whether-or-not-the-close-frame-could-be-written", not any(b.startswith("(3)") for b in bad))
+    c.oblige("post/on_close-fires-once-and-writes-are-refused-as-always", not any(b.startswith("(4)") or b.startswith("(5)") for b in bad))
+
+
 # ---------------------------------------------------------------------------------- bounded stand-in
 def standin(tier, seed):
     import random
@@ -245,7 +267,7 @@ def standin(tier, seed):
             failures.append({"what": what, "history": {k: repr(v)[:400] for k, v in h.items()}})
     for it in range(N):
         ping = None
-        alphabet = STEPS + ["M", "W", "T1", "MF"]
+        alphabet = STEPS + ["M", "W", "T1", "MF"] + (["STALL"] if rng.random() < 0.2 else [])
         settings = {}
         if rng.random() < 0.3:
             timeout = rng.choice([0.5, 1.0, None])
